@@ -536,21 +536,23 @@ func (a *AddrManager) updateManagedAddress(dbTransaction db.ReadTransaction, man
 	return nil
 }
 
-func (a *AddrManager) changePrivPassphrase(amBucket db.Bucket, oldPrivPass []byte, newMasterPrivKey *snacl.SecretKey) error {
+// changePrivPassphrase re-encrypts the private crypto key of the keystore under newMasterPrivKey, stores it with the
+// new master key parameters and returns the stored ciphertext.
+func (a *AddrManager) changePrivPassphrase(amBucket db.Bucket, oldPrivPass []byte, newMasterPrivKey *snacl.SecretKey) ([]byte, error) {
 	a.mu.Lock()
 	defer a.mu.Unlock()
 
 	_, privParams, err := fetchMasterKeyParams(amBucket)
 	if err != nil {
-		return err
+		return nil, err
 	}
 	_, cryptoPrivKeyEnc, err := fetchCryptoKeys(amBucket)
 	if err != nil {
-		return err
+		return nil, err
 	}
 	err = a.checkPassword(oldPrivPass)
 	if err != nil {
-		return err
+		return nil, err
 	}
 	//check password
 	var masterPrivKey snacl.SecretKey
@@ -561,7 +563,7 @@ func (a *AddrManager) changePrivPassphrase(amBucket db.Bucket, oldPrivPass []byt
 			logging.LogFormat{
 				"err": err,
 			})
-		return err
+		return nil, err
 	}
 
 	cPrivKeyBytes, err := masterPrivKey.Decrypt(cryptoPrivKeyEnc)
@@ -570,27 +572,27 @@ func (a *AddrManager) changePrivPassphrase(amBucket db.Bucket, oldPrivPass []byt
 			logging.LogFormat{
 				"err": err,
 			})
-		return err
+		return nil, err
 	}
 	defer zero.Bytes(cPrivKeyBytes)
 
 	newPrivParams := newMasterPrivKey.Marshal()
 	cPrivKeyEncNew, err := newMasterPrivKey.Encrypt(cPrivKeyBytes)
 	if err != nil {
-		return err
+		return nil, err
 	}
 
 	err = putMasterKeyParams(amBucket, nil, newPrivParams)
 	if err != nil {
-		return err
+		return nil, err
 	}
 
 	err = putCryptoKeys(amBucket, nil, cPrivKeyEncNew)
 	if err != nil {
-		return err
+		return nil, err
 	}
 
-	return nil
+	return cPrivKeyEncNew, nil
 }
 
 func (a *AddrManager) changeRemark(dbTransaction db.DBTransaction, newRemark string) error {
